@@ -397,22 +397,25 @@ def fromFirstHop (src hop : Nat × Nat) : Bool := src.1 == hop.1 && src.2 == hop
     Datagrams are represented by an id (their bytes are passed through untouched). -/
 
 inductive XDest
-  | ip (a : Nat)          -- literal address (0 = the null address 0.0.0.0:0)
-  | name (h : Nat)        -- DomainAddress
+  | ip (a : Nat) (port : Nat)       -- literal address
+  | name (h : Nat) (port : Nat)     -- DomainAddress: host name and port
   deriving DecidableEq, Repr
 
+/-- a datagram with the address it is (to be) sent to: (datagram id, (ip or host, port)) -/
+abbrev XItem := Nat × (Nat × Nat)
+
 structure XSock where
-  ready : Bool := false               -- transports created
-  queue : List (Nat × Nat) := []      -- (datagram, ip) waiting for the transports; deque(maxlen=10)
-  pending : List (Nat × Nat) := []    -- (datagram, host) resolutions in flight
-  out : List (Nat × Nat) := []        -- handed to the transport
+  ready : Bool := false        -- transports created
+  queue : List XItem := []     -- (datagram, (ip, port)) waiting for the transports; deque(maxlen=10)
+  pending : List XItem := []   -- (datagram, (host, port)) resolutions in flight
+  out : List XItem := []       -- handed to the transport: (datagram, (ip, port))
   deriving Repr
 
-def pushCap (x : Nat × Nat) (q : List (Nat × Nat)) : List (Nat × Nat) :=
+def pushCap (x : XItem) (q : List XItem) : List XItem :=
   if 10 ≤ q.length then q.drop 1 ++ [x] else q ++ [x]
 
 /-- the tail of `sendto` for a literal address (the null-address filter of `sendto` is not part of this model) -/
-def XSock.sendIp (s : XSock) (i a : Nat) : XSock :=
+def XSock.sendIp (s : XSock) (i : Nat) (a : Nat × Nat) : XSock :=
   if s.ready then { s with out := s.out ++ [(i, a)] }
   else { s with queue := pushCap (i, a) s.queue }
 
@@ -422,16 +425,23 @@ inductive XEv
   | transportsReady
   deriving Repr
 
+/-- `resolve` keeps the PORT of the destination it was asked for and replaces only the host by its address -/
 def XSock.step (dns : Nat → Nat) (s : XSock) : XEv → XSock
-  | .send i (.ip a) => s.sendIp i a
-  | .send i (.name h) => { s with pending := s.pending ++ [(i, h)] }
+  | .send i (.ip a p) => s.sendIp i (a, p)
+  | .send i (.name h p) => { s with pending := s.pending ++ [(i, (h, p))] }
   | .resolved =>
     match s.pending with
     | [] => s
-    | (i, h) :: r => ({ s with pending := r }).sendIp i (dns h)
+    | (i, (h, p)) :: r => ({ s with pending := r }).sendIp i (dns h, p)
   | .transportsReady => { s with ready := true, out := s.out ++ s.queue, queue := [] }   -- `while self.queue: sendto(...)`
 
 def XSock.run (dns : Nat → Nat) (s : XSock) (evs : List XEv) : XSock := evs.foldl (XSock.step dns) s
+
+/-- where a datagram handed to `sendto` has to go -/
+def XEv.expected (dns : Nat → Nat) : XEv → List XItem
+  | .send i (.ip a p) => [(i, (a, p))]
+  | .send i (.name h p) => [(i, (dns h, p))]
+  | _ => []
 
 /-- every datagram the socket still holds or has emitted -/
 def XSock.held (s : XSock) : List Nat := (s.out ++ s.queue ++ s.pending).map Prod.fst
@@ -446,6 +456,25 @@ def XEv.sentId : XEv → List Nat
     anything out of a tunnel.  Result: indices into `overlays`. -/
 def tunnelDelivery (overlays : List (Bytes × Bool)) (packet : Bytes) : List Nat :=
   (overlays.zipIdx.filter (fun (o : (Bytes × Bool) × Nat) => o.1.1 == packet.take 22 && o.1.2)).map (·.2)
+
+/-! ### the anonymizing endpoint's send path (endpoint.py `TunnelEndpoint.send`): a packet of an anonymized overlay is sent
+    into the ready circuit — followed by whatever was queued while no circuit was ready — or queued (deque(maxlen=100)).
+    A packet is a pair (destination, packet id). -/
+
+def pushCap100 (x : Nat × Nat) (q : List (Nat × Nat)) : List (Nat × Nat) :=
+  if 100 ≤ q.length then q.drop 1 ++ [x] else q ++ [x]
+
+structure TEp where
+  queue : List (Nat × Nat) := []
+  out : List (Nat × Nat) := []      -- `tunnel_community.send_data(...)` calls, in order
+  deriving Repr
+
+/-- one `send(address, packet)`; `ready` = a ready circuit with the wanted exit exists -/
+def TEp.send (s : TEp) (ready : Bool) (x : Nat × Nat) : TEp :=
+  if ready then { queue := [], out := s.out ++ x :: s.queue }
+  else { s with queue := pushCap100 x s.queue }
+
+def TEp.run (s : TEp) (evs : List (Bool × (Nat × Nat))) : TEp := evs.foldl (fun acc e => acc.send e.1 e.2) s
 
 end
 
